@@ -87,6 +87,21 @@ CLAIMED = {
          "removes all for 3 and does nothing otherwise; tab() moves to the least stop strictly right of the cursor clamped to the last column, or to the last column if there is none, never "
          "beyond it, and changes nothing else -- for every stop set, cursor column incl. pending wrap and width.",
     design="5 C18", technique="Verus contracts on the verbatim bodies (tab(): collect+sort called out to a trusted `sorted elements` shim, reference pattern rewritten)"),
+ 'C02': dict(
+    text="Deductive proof on the verbatim Parser::feed that the observable parser state (abstract world = suspended coroutine + shared listener; plus the taking_plain_text flag) after "
+         "feed(data) is the left fold of a per-character step over data's characters -- the step being exactly feed's branch structure (fast path / special start / resume coroutine) "
+         "over ASSUMED deterministic effects of listener.draw and of resuming the coroutine. Three lemmas then give the property: fold(fold(s,a),b) == fold(s,a+b) (any chunking of a "
+         "character stream), fold(s,"") == s (empty chunks), and for bytes: ByteParser::feed (verbatim) threads the streaming-decoder state and hands exactly the decoded characters "
+         "(or the 1:1 Latin-1 mapping in 8-bit mode) to Parser::feed once, so with the ASSUMED streaming law of encoding_rs, byte chunk a then b == a+b at any offset.",
+    design="5 C02", technique="Verus contract: state after feed == fold(step, state, input); chunking = fold-concatenation lemma (induction)",
+    note="ASSUMED (not verified): generator-rs resumes the coroutine where it yielded and the coroutine + listener are deterministic functions of (state, char) that touch nothing but the shared world; "
+         "encoding_rs::Decoder::decode_to_string(.., last=false) with max_utf8_buffer_length capacity is a streaming decoder (axiom_dec_stream). The FSM closure itself is not verified here (C03)."),
+ 'C11': dict(
+    text="Memterm's own part of byte decoding, proved on the verbatim ByteParser::feed: in UTF-8 mode every input byte is handed to the streaming decoder exactly once, in order, together with the "
+         "carried decoder state, and exactly the decoder's output is handed to Parser::feed, once, in order; in 8-bit mode the characters handed on are exactly data.map(|b| b as char) "
+         "(the closure is verified); the mode flag is not changed by feeding. That the decoder IS conforming streaming UTF-8 with maximal-subpart replacement is encoding_rs's contract and is ASSUMED.",
+    design="5 C11", technique="Verus contract on the verbatim ByteParser::feed over an abstract streaming-decoder state",
+    note="ASSUMED: encoding_rs (external crate, SIMD/unsafe) implements WHATWG streaming UTF-8 decoding; select_other_charset (string-literal match) is not under contract."),
 }
 NA = {}
 checks = []
